@@ -629,8 +629,12 @@ def decide(cx, prop, tier, seed, t_start):
     )
     if leanchecker_note:
         cov['leanchecker'] = leanchecker_note
+    try:
+        _meta = json.load(open(os.path.join(cx.root, 'findings', 'manifest_meta.json')))['checks'].get(prop, {})
+    except Exception:
+        _meta = {}
     ev = dict(property_id=prop, tier=tier, seed=seed, level=level, coverage=cov,
-              assumptions=['float64 modelled as exact decimals on the ≤15-digit / dyadic domain; transitions outside are skipped and counted in model_skips',
+              assumptions=([_meta['note']] if _meta.get('note') else []) + ['float64 modelled as exact decimals on the ≤15-digit / dyadic domain; transitions outside are skipped and counted in model_skips',
                            'Go map iteration order and goroutine scheduling below the keyspace primitives are not exercised by this suite',
                            'virtual clock at millisecond granularity'],
               wall_s=round(time.time() - t_start, 2), violations=len(violations))
